@@ -334,11 +334,12 @@ inductive SrcStep (srcs : Nat → Src) (j : Nat) : Src → Prop
 
 /-- the two things `exec` can do: finish at once with a result (`quiet`), or enter a dispatch loop (`enter`) -/
 inductive ExecR (m : M) (g : Bool) : M → Prop
-  | quiet (srcs' : Nat → Src) (r : Res) (n : Nat) (gn : List (Nat × Bool)) (hn : m.nextFid ≤ n)
+  | quiet (srcs' : Nat → Src) (r : Res) (n : Nat) (gn : List (Nat × Bool)) (evOf' : Nat → Option (Nat × Nat)) (hn : m.nextFid ≤ n)
       (hs : ∀ j, SrcStep m.srcs j (srcs' j)) (hgn : ∃ d, gn = m.gone ++ d) :
-      ExecR m g { m with srcs := srcs', pend := some (r, g), nextFid := n, gone := gn }
-  | enter (i et : Nat) (noErr : Bool) (hd : (m.srcs i).isDeclared et = true) :
-      ExecR m g (push { m with nextFid := m.nextFid + 1, srcs := updSrc m.srcs i (m.srcs i).touch } m.nextFid i et noErr g)
+      ExecR m g { m with srcs := srcs', pend := some (r, g), nextFid := n, gone := gn, evOf := evOf' }
+  | enter (i et ev : Nat) (noErr : Bool) (evOf' : Nat → Option (Nat × Nat)) (hd : (m.srcs i).isDeclared et = true) :
+      ExecR m g (push { m with nextFid := m.nextFid + 1, srcs := updSrc m.srcs i (m.srcs i).touch, evOf := evOf' }
+                      m.nextFid i et ev noErr g)
 
 theorem updSrc_touch_step (srcs : Nat → Src) (i j : Nat) : SrcStep srcs j (updSrc srcs i (srcs i).touch j) := by
   unfold updSrc
@@ -367,36 +368,41 @@ theorem doActionM_step (srcs : Nat → Src) (i : Nat) (a : Action) (j : Nat) : S
 
 theorem exec_rel (m : M) (sa : SAct) (g : Bool) : ExecR m g (exec m sa g) := by
   obtain ⟨i, a⟩ := sa
-  have hq : ∀ (srcs' : Nat → Src) (r : Res) (n : Nat) (gn : List (Nat × Bool)), m.nextFid ≤ n → (∀ j, SrcStep m.srcs j (srcs' j)) →
-      (∃ d, gn = m.gone ++ d) →
-      ExecR m g { m with srcs := srcs', pend := some (r, g), nextFid := n, gone := gn } := fun s r n gn h1 h2 h3 => .quiet s r n gn h1 h2 h3
+  have hq : ∀ (srcs' : Nat → Src) (r : Res) (n : Nat) (gn : List (Nat × Bool)) (evOf' : Nat → Option (Nat × Nat)), m.nextFid ≤ n →
+      (∀ j, SrcStep m.srcs j (srcs' j)) → (∃ d, gn = m.gone ++ d) →
+      ExecR m g { m with srcs := srcs', pend := some (r, g), nextFid := n, gone := gn, evOf := evOf' } :=
+    fun s r n gn ev h1 h2 h3 => .quiet s r n gn ev h1 h2 h3
   have hother : ExecR m g { m with srcs := (doActionM m.srcs i a).1, pend := some ((doActionM m.srcs i a).2, g) } :=
-    hq _ _ m.nextFid m.gone (Nat.le_refl _) (doActionM_step m.srcs i a) ⟨[], by simp⟩
+    hq _ _ m.nextFid m.gone m.evOf (Nat.le_refl _) (doActionM_step m.srcs i a) ⟨[], by simp⟩
   cases a with
-  | raise et form noErr =>
-    have hm1 : ∀ r : Res, ExecR m g { m with nextFid := m.nextFid + 1, srcs := updSrc m.srcs i (m.srcs i).touch, pend := some (r, g) } :=
-      fun r => hq _ r (m.nextFid + 1) m.gone (Nat.le_succ _) (updSrc_touch_step m.srcs i) ⟨[], by simp⟩
-    have hstart : ExecR m g (if (m.srcs i).isDeclared et then
-          push { m with nextFid := m.nextFid + 1, srcs := updSrc m.srcs i (m.srcs i).touch } m.nextFid i et noErr g
-        else { m with nextFid := m.nextFid + 1, srcs := updSrc m.srcs i (m.srcs i).touch, pend := some (.exc .revent, g) }) := by
+  | raise et0 form noErr =>
+    have hm1 : ∀ (r : Res) (evOf' : Nat → Option (Nat × Nat)),
+        ExecR m g { m with nextFid := m.nextFid + 1, srcs := updSrc m.srcs i (m.srcs i).touch, evOf := evOf', pend := some (r, g) } :=
+      fun r ev => hq _ r (m.nextFid + 1) m.gone ev (Nat.le_succ _) (updSrc_touch_step m.srcs i) ⟨[], by simp⟩
+    have hstart : ∀ (ev et : Nat) (evOf' : Nat → Option (Nat × Nat)), ExecR m g (if (m.srcs i).isDeclared et then
+          push { m with nextFid := m.nextFid + 1, srcs := updSrc m.srcs i (m.srcs i).touch, evOf := evOf' } m.nextFid i et ev noErr g
+        else { m with nextFid := m.nextFid + 1, srcs := updSrc m.srcs i (m.srcs i).touch, evOf := evOf', pend := some (.exc .revent, g) }) := by
+      intro ev et evOf'
       split
-      · rename_i hd; exact .enter i et noErr hd
-      · exact hm1 _
+      · rename_i hd; exact .enter i et ev noErr evOf' hd
+      · exact hm1 _ _
     simp only [exec]
     cases form with
-    | junk isClass => exact hm1 _
-    | inst => exact hstart
+    | junk isClass => exact hm1 _ _
+    | inst => exact hstart _ _ _
+    | again f0 => exact hstart _ _ _
+    | fwd => exact hstart _ _ _
     | cls =>
       simp only
       split
-      · exact hm1 _
-      · exact hm1 _
-      · exact hstart
+      · exact hm1 _ _
+      · exact hm1 _ _
+      · exact hstart _ _ _
   | dropOwner o =>
     simp only [exec]
     split
-    · exact hq m.srcs _ m.nextFid m.gone (Nat.le_refl _) (fun _ => .same) ⟨[], by simp⟩
-    · exact hq _ _ m.nextFid _ (Nat.le_refl _) (doActionM_step m.srcs i (.dropOwner o)) ⟨_, rfl⟩
+    · exact hq m.srcs _ m.nextFid m.gone m.evOf (Nat.le_refl _) (fun _ => .same) ⟨[], by simp⟩
+    · exact hq _ _ m.nextFid _ m.evOf (Nat.le_refl _) (doActionM_step m.srcs i (.dropOwner o)) ⟨_, rfl⟩
   | add et hid prio once weak => exact hother
   | bind meths pfx hb prio weak => exact hother
   | rmHandler hid et => exact hother
@@ -408,8 +414,8 @@ theorem exec_rel (m : M) (sa : SAct) (g : Bool) : ExecR m g (exec m sa g) := by
 
 theorem exec_srcs {m m' : M} {g : Bool} (he : ExecR m g m') (j : Nat) : SrcStep m.srcs j (m'.srcs j) := by
   cases he with
-  | quiet srcs' r n gn hn hs hgn => exact hs j
-  | enter i et noErr hd => exact updSrc_touch_step m.srcs i j
+  | quiet srcs' r n gn evOf' hn hs hgn => exact hs j
+  | enter i et ev noErr evOf' hd => exact updSrc_touch_step m.srcs i j
 
 inductive Step (β : Beh) (m : M) : M → Prop
   | deliverAbort (k : Exc) (fr : Frame) (st : List Frame) (hp : m.pend = some (.exc k, false)) (hs : m.stack = fr :: st) :
@@ -427,17 +433,17 @@ inductive Step (β : Beh) (m : M) : M → Prop
   | hRet (fr : Frame) (st : List Frame) (e : Entry) (r : Ret) (hp : m.pend = none) (hs : m.stack = fr :: st)
       (hc : fr.cur = some (e, [], r)) (hr : r.isExc = false) : Step β m (hret m fr st e r)
   | fFinish (fr : Frame) (st : List Frame) (hp : m.pend = none) (hs : m.stack = fr :: st) (hc : fr.cur = none)
-      (hr : fr.rest = []) : Step β m (finish m fr st fr.halt)
+      (hr : fr.rest = []) : Step β m (finish m fr st false)
   | fInvoke (fr : Frame) (st : List Frame) (e : Entry) (rest : List Entry) (live : Bool) (acts : List (SAct × Bool)) (ret : Ret)
-      (h : Bool) (srcs' : Nat → Src) (hp : m.pend = none) (hs : m.stack = fr :: st) (hc : fr.cur = none) (hr : fr.rest = e :: rest)
+      (halts' : Nat → Bool) (srcs' : Nat → Src) (hp : m.pend = none) (hs : m.stack = fr :: st) (hc : fr.cur = none) (hr : fr.rest = e :: rest)
       (hsrc : srcs' = m.srcs ∨ srcs' = updSrc m.srcs fr.src (rmEidAll (m.srcs fr.src) e.eid))
       (hlive : live = true → (∀ p ∈ m.gone, p.1 ≠ e.eid) ∧
           (m.v.oncePre = true → e.once = true →
             srcs' = updSrc m.srcs fr.src (rmEidAll (m.srcs fr.src) e.eid) ∧
             ∃ k, ((m.srcs fr.src).subscribers k).any (matchEid e.eid) = true))
       (hdead : live = false → (∃ p ∈ m.gone, p.1 = e.eid) ∨ (m.v.oncePre = true ∧ e.once = true)) :
-      Step β m { m with srcs := srcs', log := m.log ++ [.call fr.fid fr.src e live],
-                        stack := { fr with rest := rest, cur := some (e, acts, ret), halt := h } :: st }
+      Step β m { m with srcs := srcs', log := m.log ++ [.call fr.fid fr.src e live], halts := halts',
+                        stack := { fr with rest := rest, cur := some (e, acts, ret) } :: st }
 
 theorem claim_none {v : Variant} {srcs : Nat → Src} {i : Nat} {e : Entry} (h : claim v srcs i e = none) :
     v.oncePre = true ∧ e.once = true := by
@@ -496,7 +502,7 @@ theorem step_rel (β : Beh) (m : M) : Step β m (step β m) := by
         · rename_i e rest hr
           split
           · rename_i hcl
-            exact .fInvoke fr st e rest false _ _ fr.halt m.srcs hp hs hc hr (.inl rfl) (by intro h; cases h)
+            exact .fInvoke fr st e rest false _ _ m.halts m.srcs hp hs hc hr (.inl rfl) (by intro h; cases h)
               (fun _ => .inr (claim_none hcl))
           · rename_i srcs' hcl
             obtain ⟨h1, h2⟩ := claim_some hcl
@@ -504,7 +510,7 @@ theorem step_rel (β : Beh) (m : M) : Step β m (step β m) := by
             · rename_i x zombie hfind
               have hmem := List.mem_of_find?_eq_some hfind
               have hx : x = e.eid := by simpa using List.find?_some hfind
-              exact .fInvoke fr st e rest false _ _ fr.halt srcs' hp hs hc hr h1 (by intro h; cases h)
+              exact .fInvoke fr st e rest false _ _ m.halts srcs' hp hs hc hr h1 (by intro h; cases h)
                 (fun _ => .inl ⟨_, hmem, hx⟩)
             · rename_i hnone
               refine .fInvoke fr st e rest true _ _ _ srcs' hp hs hc hr h1 ?_ (by intro h; cases h)
@@ -606,10 +612,10 @@ theorem SameFor.refl (f : Nat) (log : List Ev) : SameFor f log log := ⟨rfl, rf
 theorem WF.exec {m m' : M} {g : Bool} (hw : WF m) (hp : m.pend = none)
     (htop : ∀ fr ∈ m.stack.head?, fr.cur.isSome = true) (he : ExecR m g m') : WF m' := by
   cases he with
-  | quiet srcs' r n gn hn hs hgn =>
+  | quiet srcs' r n gn evOf' hn hs hgn =>
     exact ⟨hw.dec, fun fr hfr => Nat.lt_of_lt_of_le (hw.lt fr hfr) hn, hw.ok,
            fun f hf => hw.fresh f (Nat.le_trans hn hf), hw.waiting, fun _ => htop⟩
-  | enter i et noErr hd =>
+  | enter i et ev noErr evOf' hd =>
     have hall : ∀ fr ∈ m.stack, fr.cur.isSome = true := by
       intro fr hfr
       cases hst : m.stack with
@@ -692,7 +698,7 @@ theorem WF.step {β : Beh} {m m' : M} (hw : WF m) (h : Step β m m') : WF m' := 
     refine hw.pop hs rfl rfl ?_
     intro f hf
     simp [finish, SameFor, callsOf, retsOf]
-  | fInvoke fr st e rest live acts ret h srcs' hp hs hc hr hsrc hlive hdead =>
+  | fInvoke fr st e rest live acts ret halts' srcs' hp hs hc hr hsrc hlive hdead =>
     have hok := hw.ok fr (by rw [hs]; exact List.mem_cons_self)
     refine hw.modTop (fr' := _) hs rfl rfl rfl ?_ ?_ (by simp)
     · intro f hf; simp [SameFor, callsOf, retsOf, Ne.symm hf]
@@ -768,8 +774,8 @@ theorem step_frame {β : Beh} {m m' : M} (hw : WF m) (h : Step β m m') (x : Fra
   have hexec : ∀ {m1 : M} {g : Bool}, ExecR m1 g m' → ∀ y ∈ m1.stack, ∃ x' ∈ m'.stack, SameFrame y x' := by
     intro m1 g he y hx1
     cases he with
-    | quiet srcs' r n gn hn hs hgn => exact ⟨y, hx1, rfl, rfl, rfl, rfl⟩
-    | enter i et noErr hd => exact ⟨y, by simp [push, hx1], rfl, rfl, rfl, rfl⟩
+    | quiet srcs' r n gn evOf' hn hs hgn => exact ⟨y, hx1, rfl, rfl, rfl, rfl⟩
+    | enter i et ev noErr evOf' hd => exact ⟨y, by simp [push, hx1], rfl, rfl, rfl, rfl⟩
   cases h with
   | deliverAbort k fr st hp hs =>
     have hok := hw.ok fr (by rw [hs]; exact List.mem_cons_self)
@@ -778,7 +784,7 @@ theorem step_frame {β : Beh} {m m' : M} (hw : WF m) (h : Step β m m') (x : Fra
     | none => simp [hcur] at hc
     | some c =>
       obtain ⟨e, acts, r⟩ := c
-      exact hpop hs rfl (done_of_stop (r := .exc k) (h := fr.halt) hok hcur (by simp [stopsAt, Ret.isExc])
+      exact hpop hs rfl (done_of_stop (r := .exc k) (h := (m.halts fr.ev)) hok hcur (by simp [stopsAt, Ret.isExc])
         (by simp [abort, hcur, callsOf]) (by simp [abort, hcur, retsOf]))
   | deliver r g hp => left; exact ⟨x, hx, rfl, rfl, rfl, rfl⟩
   | idle => left; exact ⟨x, hx, rfl, rfl, rfl, rfl⟩
@@ -791,24 +797,24 @@ theorem step_frame {β : Beh} {m m' : M} (hw : WF m) (h : Step β m m') (x : Fra
     · exact hexec he x (by simp [hx])
   | hAbort fr st e k hp hs hc =>
     have hok := hw.ok fr (by rw [hs]; exact List.mem_cons_self)
-    exact hpop hs rfl (done_of_stop (r := .exc k) (h := fr.halt) hok hc (by simp [stopsAt, Ret.isExc])
+    exact hpop hs rfl (done_of_stop (r := .exc k) (h := (m.halts fr.ev)) hok hc (by simp [stopsAt, Ret.isExc])
       (by simp [abort, hc, callsOf]) (by simp [abort, hc, retsOf]))
   | hRet fr st e r hp hs hc hr =>
     have hok := hw.ok fr (by rw [hs]; exact List.mem_cons_self)
-    by_cases hh : stopsAt r fr.halt = true
-    · exact hpop hs (by simp [hret, hh, finish]) (done_of_stop (r := r) (h := fr.halt) hok hc hh
+    by_cases hh : stopsAt r (m.halts fr.ev) = true
+    · exact hpop hs (by simp [hret, hh, finish]) (done_of_stop (r := r) (h := (m.halts fr.ev)) hok hc hh
         (by simp [hret, hh, finish, callsOf]) (by simp [hret, hh, finish, retsOf]))
     · left; exact hmod (fr' := { fr with cur := none }) hs ⟨[], by simp [hret, hh]⟩ ⟨rfl, rfl, rfl, rfl⟩
   | fFinish fr st hp hs hc hr =>
     have hok := hw.ok fr (by rw [hs]; exact List.mem_cons_self)
     exact hpop hs rfl (done_of_exhausted hok hc hr (by simp [finish, callsOf]) (by simp [finish, retsOf]))
-  | fInvoke fr st e rest live acts ret h srcs' hp hs hc hr hsrc hlive hdead => left; exact hmod hs ⟨[], rfl⟩ ⟨rfl, rfl, rfl, rfl⟩
+  | fInvoke fr st e rest live acts ret halts' srcs' hp hs hc hr hsrc hlive hdead => left; exact hmod hs ⟨[], rfl⟩ ⟨rfl, rfl, rfl, rfl⟩
 
 
 theorem exec_nextFid {m m' : M} {g : Bool} (he : ExecR m g m') : m.nextFid ≤ m'.nextFid := by
   cases he with
-  | quiet srcs' r n gn hn hs hgn => exact hn
-  | enter i et noErr hd => exact Nat.le_succ _
+  | quiet srcs' r n gn evOf' hn hs hgn => exact hn
+  | enter i et ev noErr evOf' hd => exact Nat.le_succ _
 
 theorem step_nextFid {β : Beh} {m m' : M} (h : Step β m m') : m.nextFid ≤ m'.nextFid := by
   cases h with
@@ -828,8 +834,8 @@ theorem step_new_frame {β : Beh} {m m' : M} (h : Step β m m') (x' : Frame) (hx
       (x'.fid = m.nextFid ∧ x'.snap = (m.srcs x'.src).subscribers x'.et ∧ x'.rest = x'.snap ∧ m.nextFid < m'.nextFid) := by
     intro m1 g he hsrc hn hst
     cases he with
-    | quiet srcs' r n gn hn' hs hgn => left; exact hst x' hx'
-    | enter i et noErr hd =>
+    | quiet srcs' r n gn evOf' hn' hs hgn => left; exact hst x' hx'
+    | enter i et ev noErr evOf' hd =>
       simp only [push, List.mem_cons] at hx'
       rcases hx' with rfl | hx'
       · right; simp [push, hsrc, hn]
@@ -851,14 +857,14 @@ theorem step_new_frame {β : Beh} {m m' : M} (h : Step β m m') (x' : Frame) (hx
   | hAbort fr st e k hp hs hc => left; exact hsub hs hx'
   | hRet fr st e r hp hs hc hr =>
     left
-    by_cases hh : stopsAt r fr.halt = true
+    by_cases hh : stopsAt r (m.halts fr.ev) = true
     · simp [hret, hh, finish] at hx'; exact hsub hs hx'
     · simp [hret, hh] at hx'
       rcases hx' with rfl | hx'
       · exact ⟨fr, by rw [hs]; exact List.mem_cons_self, rfl, rfl, rfl, rfl⟩
       · exact hsub hs hx'
   | fFinish fr st hp hs hc hr => left; exact hsub hs hx'
-  | fInvoke fr st e rest live acts ret h srcs' hp hs hc hr hsrc hlive hdead =>
+  | fInvoke fr st e rest live acts ret halts' srcs' hp hs hc hr hsrc hlive hdead =>
     left
     simp only [List.mem_cons] at hx'
     rcases hx' with rfl | hx'
@@ -871,8 +877,8 @@ theorem step_same_other {β : Beh} {m m' : M} (h : Step β m m') (f : Nat) (hf :
   have hexec : ∀ {m1 : M} {g : Bool}, ExecR m1 g m' → m1.log = m.log → SameFor f m.log m'.log := by
     intro m1 g he hl
     cases he with
-    | quiet srcs' r n gn hn' hs hgn => rw [← hl]; exact SameFor.refl _ _
-    | enter i et noErr hd => simp [push, SameFor, hl, callsOf, retsOf]
+    | quiet srcs' r n gn evOf' hn' hs hgn => rw [← hl]; exact SameFor.refl _ _
+    | enter i et ev noErr evOf' hd => simp [push, SameFor, hl, callsOf, retsOf]
   cases h with
   | deliverAbort k fr st hp hs =>
     have hne : fr.fid ≠ f := hf fr (by simp [hs])
@@ -891,7 +897,7 @@ theorem step_same_other {β : Beh} {m m' : M} (h : Step β m m') (f : Nat) (hf :
     have hne : fr.fid ≠ f := hf fr (by simp [hs])
     simp only [hret]; split <;> simp [finish, SameFor, callsOf, retsOf, hne]
   | fFinish fr st hp hs hc hr => simp [finish, SameFor, callsOf, retsOf]
-  | fInvoke fr st e rest live acts ret h srcs' hp hs hc hr hsrc hlive hdead =>
+  | fInvoke fr st e rest live acts ret halts' srcs' hp hs hc hr hsrc hlive hdead =>
     have hne : fr.fid ≠ f := hf fr (by simp [hs])
     simp [SameFor, callsOf, retsOf, hne]
 
@@ -933,8 +939,8 @@ theorem step_push {β : Beh} {m m' : M} (h : Step β m m') (fr : Frame) (rest : 
       m1.srcs = m.srcs → fr.fid = m.nextFid ∧ fr.snap = (m.srcs fr.src).subscribers fr.et ∧ m.nextFid < m'.nextFid := by
     intro m1 g he hl hn hsrc
     cases he with
-    | quiet srcs' r n gn hn' hs hgn => simp at hlen; omega
-    | enter i et noErr hd =>
+    | quiet srcs' r n gn evOf' hn' hs hgn => simp at hlen; omega
+    | enter i et ev noErr evOf' hd =>
       simp only [push] at hst
       have := (List.cons.inj hst).1
       subst this
@@ -947,11 +953,11 @@ theorem step_push {β : Beh} {m m' : M} (h : Step β m m') (fr : Frame) (rest : 
   | hExec fr0 st e a g acts r m' hp hs hc he => exact hexec he (by simp [hs]) rfl rfl
   | hAbort fr0 st e k hp hs hc => simp [abort, hs] at hlen; omega
   | hRet fr0 st e r hp hs hc hr =>
-    by_cases hh : stopsAt r fr0.halt = true
+    by_cases hh : stopsAt r (m.halts fr0.ev) = true
     · simp [hret, hh, finish, hs] at hlen; omega
     · simp [hret, hh, hs] at hlen
   | fFinish fr0 st hp hs hc hr => simp [finish, hs] at hlen; omega
-  | fInvoke fr0 st e rest live acts ret h srcs' hp hs hc hr hsrc hlive hdead => simp [hs] at hlen
+  | fInvoke fr0 st e rest live acts ret halts' srcs' hp hs hc hr hsrc hlive hdead => simp [hs] at hlen
 
 
 
@@ -1021,6 +1027,8 @@ theorem exec_sync {m : M} (h : Sync m.srcs) (sa : SAct) (g : Bool) : Sync (exec 
     simp only [exec]
     cases form with
     | junk isClass => simpa using ht
+    | again f0 => simp only; split <;> split <;> simpa [push] using ht
+    | fwd => simp only; split <;> split <;> simpa [push] using ht
     | inst => simp only; split <;> simpa [push] using ht
     | cls => simp only; split <;> (try split) <;> simpa [push] using ht
   | add et hid prio once weak => exact hother
@@ -1138,7 +1146,7 @@ theorem step_src {P : Src → Prop} (hP : SrcClosed P) {β : Beh} {m m' : M} (hs
     · unfold updSrc; split
       · rename_i hj; subst hj; exact hP.2.1 _ _ hs
       · exact hs
-  | fInvoke fr st e rest live acts ret h srcs' hp hs' hc hr hsrc hlive hdead =>
+  | fInvoke fr st e rest live acts ret halts' srcs' hp hs' hc hr hsrc hlive hdead =>
     rcases hsrc with h1 | h1 <;> rw [h1]
     · exact hs
     · show P (updSrc m.srcs fr.src (rmEidAll (m.srcs fr.src) e.eid) j)
@@ -1291,8 +1299,8 @@ theorem step_calls {β : Beh} {m m' : M} (hw : WF m) (h : Step β m m') (f s : N
   have hexec : ∀ {m1 : M} {g : Bool}, ExecR m1 g m' → m1.log = m.log → Ev.call f s y lv ∈ m.log := by
     intro m1 g he hl
     cases he with
-    | quiet srcs' r n gn hn' hs hgn => rw [← hl]; exact hy
-    | enter i et noErr hd => simpa [push, hl] using hy
+    | quiet srcs' r n gn evOf' hn' hs hgn => rw [← hl]; exact hy
+    | enter i et ev noErr evOf' hd => simpa [push, hl] using hy
   cases h with
   | deliverAbort k fr st hp hs =>
     left
@@ -1307,11 +1315,11 @@ theorem step_calls {β : Beh} {m m' : M} (hw : WF m) (h : Step β m m') (f s : N
   | hAbort fr st e k hp hs hc => left; simpa [abort, hc] using hy
   | hRet fr st e r hp hs hc hr =>
     left
-    by_cases hh : stopsAt r fr.halt = true
+    by_cases hh : stopsAt r (m.halts fr.ev) = true
     · simpa [hret, hh, finish] using hy
     · simpa [hret, hh] using hy
   | fFinish fr st hp hs hc hr => left; simpa [finish] using hy
-  | fInvoke fr st e rest live acts ret h srcs' hp hs hc hr hsrc hlive hdead =>
+  | fInvoke fr st e rest live acts ret halts' srcs' hp hs hc hr hsrc hlive hdead =>
     simp only [List.mem_append, List.mem_singleton] at hy
     rcases hy with hy | hy
     · exact .inl hy
@@ -1384,7 +1392,7 @@ theorem later_of_return {β : Beh} {m : M} (hi : MInv m) {fr : Frame} {st : List
     intro f hf y lv hy
     have := mem_callsOf hy
     rw [(hfresh f hf).1] at this; cases this
-  by_cases hh : stopsAt r fr.halt = true
+  by_cases hh : stopsAt r (m.halts fr.ev) = true
   · refine ⟨by simpa [hret, hh, finish] using habs, by simp [hret, hh, finish], ?_, ?_⟩
     · intro x hx _ hf
       simp [hret, hh, finish] at hx
@@ -1439,8 +1447,8 @@ theorem GoodLog.step {β : Beh} {m m' : M} (h : Step β m m') (hg : GoodLog m.lo
   have hexec : ∀ {m1 : M} {g : Bool}, ExecR m1 g m' → m1.log = m.log → GoodLog m'.log := by
     intro m1 g he hl
     cases he with
-    | quiet srcs' r n gn hn' hs hgn => rw [← hl] at hg; exact hg
-    | enter i et noErr hd => simp only [push, hl]; exact hg.snoc trivial
+    | quiet srcs' r n gn evOf' hn' hs hgn => rw [← hl] at hg; exact hg
+    | enter i et ev noErr evOf' hd => simp only [push, hl]; exact hg.snoc trivial
   cases h with
   | deliverAbort k fr st hp hs => exact abort_good (m := { m with pend := none, log := m.log ++ [.res (.exc k)] }) (hg.snoc trivial)
   | deliver r g hp => exact hg.snoc trivial
@@ -1450,10 +1458,10 @@ theorem GoodLog.step {β : Beh} {m m' : M} (h : Step β m m') (hg : GoodLog m.lo
   | hAbort fr st e k hp hs hc => exact abort_good hg
   | hRet fr st e r hp hs hc hr =>
     simp only [hret]; split
-    · exact (hg.snoc (ev := .ret fr.fid e r fr.halt) trivial).snoc (ev := .endf fr.fid fr.noErr (.ok (.event true))) (by cases fr.noErr <;> trivial)
+    · exact (hg.snoc (ev := .ret fr.fid e r (m.halts fr.ev)) trivial).snoc (ev := .endf fr.fid fr.noErr (.ok (.event true))) (by cases fr.noErr <;> trivial)
     · exact hg.snoc trivial
-  | fFinish fr st hp hs hc hr => exact hg.snoc (ev := .endf fr.fid fr.noErr (.ok (.event fr.halt))) (by cases fr.noErr <;> trivial)
-  | fInvoke fr st e rest live acts ret h srcs' hp hs hc hr hsrc hlive hdead => exact hg.snoc trivial
+  | fFinish fr st hp hs hc hr => exact hg.snoc (ev := .endf fr.fid fr.noErr (.ok (.event (m.halts fr.ev)))) (by cases fr.noErr <;> trivial)
+  | fInvoke fr st e rest live acts ret halts' srcs' hp hs hc hr hsrc hlive hdead => exact hg.snoc trivial
 
 theorem GoodLog.run {β : Beh} {m : M} (hg : GoodLog m.log) (n : Nat) : GoodLog (run β n m).log := by
   induction n generalizing m with
@@ -1465,8 +1473,8 @@ theorem step_log {β : Beh} {m m' : M} (h : Step β m m') : ∃ d, m'.log = m.lo
   have hexec : ∀ {m1 : M} {g : Bool}, ExecR m1 g m' → m1.log = m.log → ∃ d, m'.log = m.log ++ d := by
     intro m1 g he hl
     cases he with
-    | quiet srcs' r n gn hn' hs hgn => exact ⟨[], by simp [← hl]⟩
-    | enter i et noErr hd => exact ⟨_, by simp only [push, hl]; rfl⟩
+    | quiet srcs' r n gn evOf' hn' hs hgn => exact ⟨[], by simp [← hl]⟩
+    | enter i et ev noErr evOf' hd => exact ⟨_, by simp only [push, hl]; rfl⟩
   cases h with
   | deliverAbort k fr st hp hs => exact ⟨_, by simp only [abort, List.append_assoc]; rfl⟩
   | deliver r g hp => exact ⟨_, rfl⟩
@@ -1479,7 +1487,7 @@ theorem step_log {β : Beh} {m m' : M} (h : Step β m m') : ∃ d, m'.log = m.lo
     · exact ⟨_, by simp only [finish, List.append_assoc]; rfl⟩
     · exact ⟨_, rfl⟩
   | fFinish fr st hp hs hc hr => exact ⟨_, rfl⟩
-  | fInvoke fr st e rest live acts ret h srcs' hp hs hc hr hsrc hlive hdead => exact ⟨_, rfl⟩
+  | fInvoke fr st e rest live acts ret halts' srcs' hp hs hc hr hsrc hlive hdead => exact ⟨_, rfl⟩
 
 theorem run_log (β : Beh) (m : M) (n : Nat) : ∃ d, (run β n m).log = m.log ++ d := by
   induction n generalizing m with
@@ -1708,6 +1716,8 @@ theorem exec_v (m : M) (sa : SAct) (g : Bool) : (exec m sa g).v = m.v := by
     simp only [exec]
     cases form with
     | junk isClass => rfl
+    | again f0 => simp only; split <;> split <;> simp [push]
+    | fwd => simp only; split <;> split <;> simp [push]
     | inst => simp only; split <;> simp [push]
     | cls => simp only; split <;> (try split) <;> simp [push]
   | dropOwner o => simp only [exec]; split <;> rfl
@@ -1765,8 +1775,8 @@ theorem StrictLog.step {β : Beh} {m m' : M} (hv : m.v.noErrAll = true) (h : Ste
   have hexec : ∀ {m1 : M} {g : Bool}, ExecR m1 g m' → m1.log = m.log → StrictLog m'.log := by
     intro m1 g he hl
     cases he with
-    | quiet srcs' r n gn hn' hs hgn => rw [← hl] at hg; exact hg
-    | enter i et noErr hd => simp only [push, hl]; exact hg.snoc trivial
+    | quiet srcs' r n gn evOf' hn' hs hgn => rw [← hl] at hg; exact hg
+    | enter i et ev noErr evOf' hd => simp only [push, hl]; exact hg.snoc trivial
   cases h with
   | deliverAbort k fr st hp hs =>
     exact abort_strict (m := { m with pend := none, log := m.log ++ [.res (.exc k)] }) hv (hg.snoc trivial)
@@ -1777,10 +1787,10 @@ theorem StrictLog.step {β : Beh} {m m' : M} (hv : m.v.noErrAll = true) (h : Ste
   | hAbort fr st e k hp hs hc => exact abort_strict hv hg
   | hRet fr st e r hp hs hc hr =>
     simp only [hret]; split
-    · exact (hg.snoc (ev := .ret fr.fid e r fr.halt) trivial).snoc (ev := .endf fr.fid fr.noErr (.ok (.event true))) (by cases fr.noErr <;> trivial)
+    · exact (hg.snoc (ev := .ret fr.fid e r (m.halts fr.ev)) trivial).snoc (ev := .endf fr.fid fr.noErr (.ok (.event true))) (by cases fr.noErr <;> trivial)
     · exact hg.snoc trivial
-  | fFinish fr st hp hs hc hr => exact hg.snoc (ev := .endf fr.fid fr.noErr (.ok (.event fr.halt))) (by cases fr.noErr <;> trivial)
-  | fInvoke fr st e rest live acts ret h srcs' hp hs hc hr hsrc hlive hdead => exact hg.snoc trivial
+  | fFinish fr st hp hs hc hr => exact hg.snoc (ev := .endf fr.fid fr.noErr (.ok (.event (m.halts fr.ev)))) (by cases fr.noErr <;> trivial)
+  | fInvoke fr st e rest live acts ret halts' srcs' hp hs hc hr hsrc hlive hdead => exact hg.snoc trivial
 
 theorem StrictLog.run {β : Beh} {m : M} (hv : m.v.noErrAll = true) (hg : StrictLog m.log) (n : Nat) : StrictLog (run β n m).log := by
   induction n generalizing m with
@@ -1812,8 +1822,8 @@ theorem step_gone {β : Beh} {m m' : M} (h : Step β m m') : ∃ d, m'.gone = m.
   have hexec : ∀ {m1 : M} {g : Bool}, ExecR m1 g m' → m1.gone = m.gone → ∃ d, m'.gone = m.gone ++ d := by
     intro m1 g he hl
     cases he with
-    | quiet srcs' r n gn hn' hs hgn => obtain ⟨d, hd⟩ := hgn; exact ⟨d, by rw [← hl]; exact hd⟩
-    | enter i et noErr hd => exact ⟨[], by simp [push, hl]⟩
+    | quiet srcs' r n gn evOf' hn' hs hgn => obtain ⟨d, hd⟩ := hgn; exact ⟨d, by rw [← hl]; exact hd⟩
+    | enter i et ev noErr evOf' hd => exact ⟨[], by simp [push, hl]⟩
   cases h with
   | topExec a as m' hp hs he => exact hexec he rfl
   | hExec fr st e a g acts r m' hp hs hc he => exact hexec he rfl
@@ -1826,8 +1836,8 @@ theorem step_live_call {β : Beh} {m m' : M} (h : Step β m m') (f s : Nat) (y :
   have hexec : ∀ {m1 : M} {g : Bool}, ExecR m1 g m' → m1.log = m.log → Ev.call f s y true ∈ m.log := by
     intro m1 g he hl
     cases he with
-    | quiet srcs' r n gn hn' hs hgn => rw [← hl]; exact hy
-    | enter i et noErr hd => simpa [push, hl] using hy
+    | quiet srcs' r n gn evOf' hn' hs hgn => rw [← hl]; exact hy
+    | enter i et ev noErr evOf' hd => simpa [push, hl] using hy
   cases h with
   | deliverAbort k fr st hp hs =>
     left
@@ -1842,11 +1852,11 @@ theorem step_live_call {β : Beh} {m m' : M} (h : Step β m m') (f s : Nat) (y :
   | hAbort fr st e k hp hs hc => left; simpa [abort, hc] using hy
   | hRet fr st e r hp hs hc hr =>
     left
-    by_cases hh : stopsAt r fr.halt = true
+    by_cases hh : stopsAt r (m.halts fr.ev) = true
     · simpa [hret, hh, finish] using hy
     · simpa [hret, hh] using hy
   | fFinish fr st hp hs hc hr => left; simpa [finish] using hy
-  | fInvoke fr st e rest live acts ret h srcs' hp hs hc hr hsrc hlive hdead =>
+  | fInvoke fr st e rest live acts ret halts' srcs' hp hs hc hr hsrc hlive hdead =>
     simp only [List.mem_append, List.mem_singleton] at hy
     rcases hy with hy | hy
     · exact .inl hy
@@ -1899,8 +1909,8 @@ theorem step_liveOnce {β : Beh} {m m' : M} (h : Step β m m') (s x : Nat) :
   have hexec : ∀ {m1 : M} {g : Bool}, ExecR m1 g m' → m1.log = m.log → liveOnce s x m'.log = liveOnce s x m.log := by
     intro m1 g he hl
     cases he with
-    | quiet srcs' r n gn hn' hs hgn => rw [← hl]
-    | enter i et noErr hd => simp [push, hl, liveOnce_append, liveOnce]
+    | quiet srcs' r n gn evOf' hn' hs hgn => rw [← hl]
+    | enter i et ev noErr evOf' hd => simp [push, hl, liveOnce_append, liveOnce]
   cases h with
   | deliverAbort k fr st hp hs =>
     left
@@ -1915,11 +1925,11 @@ theorem step_liveOnce {β : Beh} {m m' : M} (h : Step β m m') (s x : Nat) :
   | hAbort fr st e k hp hs hc => left; simp [abort, hc, liveOnce_append, liveOnce]
   | hRet fr st e r hp hs hc hr =>
     left
-    by_cases hh : stopsAt r fr.halt = true
+    by_cases hh : stopsAt r (m.halts fr.ev) = true
     · simp [hret, hh, finish, liveOnce_append, liveOnce]
     · simp [hret, hh, liveOnce_append, liveOnce]
   | fFinish fr st hp hs hc hr => left; simp [finish, liveOnce_append, liveOnce]
-  | fInvoke fr st e rest live acts ret h srcs' hp hs hc hr hsrc hlive hdead =>
+  | fInvoke fr st e rest live acts ret halts' srcs' hp hs hc hr hsrc hlive hdead =>
     by_cases hcond : fr.src = s ∧ live = true ∧ e.once = true ∧ e.eid = x
     · right
       obtain ⟨h1, h2, h3, h4⟩ := hcond
@@ -1989,8 +1999,8 @@ theorem DeadOK.step' {β : Beh} {m : M} (hd : DeadOK m) : DeadOK (step β m) := 
     intro m1 g he hl
     generalize hm' : step β m = m' at he hy
     cases he with
-    | quiet srcs' r n gn hn' hs hgn => rw [← hl]; exact hy
-    | enter i et noErr hd => simpa [push, hl] using hy
+    | quiet srcs' r n gn evOf' hn' hs hgn => rw [← hl]; exact hy
+    | enter i et ev noErr evOf' hd => simpa [push, hl] using hy
   generalize hm' : step β m = m' at hstep hy hold hexec hdg
   cases hstep with
   | deliverAbort k fr st hp hs =>
@@ -2006,11 +2016,11 @@ theorem DeadOK.step' {β : Beh} {m : M} (hd : DeadOK m) : DeadOK (step β m) := 
   | hAbort fr st e k hp hs hc => apply hold; simpa [abort, hc] using hy
   | hRet fr st e r hp hs hc hr =>
     apply hold
-    by_cases hh : stopsAt r fr.halt = true
+    by_cases hh : stopsAt r (m.halts fr.ev) = true
     · simpa [hret, hh, finish] using hy
     · simpa [hret, hh] using hy
   | fFinish fr st hp hs hc hr => apply hold; simpa [finish] using hy
-  | fInvoke fr st e rest live acts ret h srcs' hp hs hc hr hsrc hlive hdead =>
+  | fInvoke fr st e rest live acts ret halts' srcs' hp hs hc hr hsrc hlive hdead =>
     simp only [List.mem_append, List.mem_singleton] at hy
     rcases hy with hy | hy
     · exact hold hy
@@ -2268,7 +2278,7 @@ theorem BeginOK.step' {β : Beh} {m : M} (hsync : Sync m.srcs) (hb : BeginOK m) 
     generalize hm' : step β m = m' at he hy
     cases he with
     | quiet srcs' r n gn hn' hs' hgn => left; rw [← hl]; exact hy
-    | enter i' et' noErr hd =>
+    | enter i' et' ev noErr evOf' hd =>
       simp only [push, hl, List.mem_append, List.mem_singleton] at hy
       rcases hy with hy | hy
       · exact .inl hy
@@ -2291,10 +2301,10 @@ theorem BeginOK.step' {β : Beh} {m : M} (hsync : Sync m.srcs) (hb : BeginOK m) 
   | hAbort fr st e k hp hs hc => left; simpa [abort, hc] using hy
   | hRet fr st e r hp hs hc hr =>
     left
-    by_cases hh : stopsAt r fr.halt = true
+    by_cases hh : stopsAt r (m.halts fr.ev) = true
     · simpa [hret, hh, finish] using hy
     · simpa [hret, hh] using hy
   | fFinish fr st hp hs hc hr => left; simpa [finish] using hy
-  | fInvoke fr st e rest live acts ret h srcs' hp hs hc hr hsrc hlive hdead => left; simpa using hy
+  | fInvoke fr st e rest live acts ret halts' srcs' hp hs hc hr hsrc hlive hdead => left; simpa using hy
 
 end Pox.Revent
